@@ -142,16 +142,18 @@ def run_query(q):
     rc, out, w, _ = run(['cbmc', '--show-loops', gb], timeout=120, mem_gb=8)
     cl = parse_show_loops(out)
     # map cbmc loops to translator loops by C line (the generated unit .c is #included, so file = unit.c)
-    by_line = {}
-    for lp in u.loops: by_line[lp['c_line']] = lp
+    by_id = {}
+    for lp in u.loops: by_id['%s.%d' % (lp['cfn'], lp['idx'])] = lp
     us = []; unmapped = []
     for l in cl:
         b = None
-        if os.path.basename(l['file']) == os.path.basename(u.c) and l['line'] in by_line:
-            sf = by_line[l['line']]['src_fn']
+        lp = by_id.get(l['id']) if os.path.basename(l['file']) == os.path.basename(u.c) else None
+        if lp is not None and lp['c_line'] != l['line']: lp = None      # numbering sanity check: same C line
+        if lp is not None:
+            sf = lp['src_fn']
             if sf in q.bounds: b = q.bounds[sf]
             else:
-                for k in by_line[l['line']].get('chain') or []:
+                for k in lp.get('chain') or []:
                     if k in q.bounds: b = q.bounds[k]; break
         if b is None:
             for pat, bb in q.fn_bounds.items():
